@@ -23,13 +23,20 @@
 (***************************************************************************)
 EXTENDS Optimizers, Json, IOUtils
 CONSTANT NTRACES
-Traces == JsonDeserialize(IOEnv.TRACE_FILE)
+\* compact file: [cfgs |-> <<configuration, ...>>, objs |-> <<objective, ...>>,
+\*                tr |-> <<[c |-> index into cfgs, k |-> <<<<call kind, recompute_tensor, index into objs>>, ...>>,
+\*                          o |-> <<<<x, cost, acc, sm, t, exception class>>, ...>>, e |-> emit the expectations>>, ...>>]
+Data == JsonDeserialize(IOEnv.TRACE_FILE)
 VARIABLES tid, l, st, verdict, vstep, cverdict, cstep, nval, nbr, stop, exp
 tvars == <<tid, l, st, verdict, vstep, cverdict, cstep, nval, nbr, stop, exp>>
-Trc == Traces[tid]
-C == Trc.cfg
+Trc == Data.tr[tid]
+C == Data.cfgs[Trc.c]
+NCalls == Len(Trc.k)
+CallAt(j) == [k |-> Trc.k[j][1], rc |-> Trc.k[j][2], o |-> Data.objs[Trc.k[j][3]], ks |-> <<>>]
+ObsAt(j) == [x |-> Trc.o[j][1], cost |-> Trc.o[j][2], acc |-> Trc.o[j][3], sm |-> Trc.o[j][4], t |-> Trc.o[j][5], exc |-> Trc.o[j][6]]
+ExpOf(r) == <<XOut(r.st.x), AlgOut(r.cost), r.st.acc, r.st.sm, r.st.t, r.shc>>
 
-TInit == /\ tid \in 1..NTRACES /\ l = 1 /\ st = Init0(Traces[tid].cfg) /\ verdict = "ok" /\ vstep = 0
+TInit == /\ tid \in 1..NTRACES /\ l = 1 /\ st = Init0(Data.cfgs[Data.tr[tid].c]) /\ verdict = "ok" /\ vstep = 0
          /\ cverdict = "ok" /\ cstep = 0 /\ nval = 0 /\ nbr = 0 /\ stop = "" /\ exp = <<>>
 
 IsObsRat(q) == Len(q) = 2 /\ q[2] > 0
@@ -60,33 +67,33 @@ Exact(a) == AIsRat(a) /\ Cmp(a.r)
 Bridged(r, call) == Cardinality({ie \in TrIdx : ~Exact(r.st.x[ie[1]][ie[2]])})
                     + (IF call.k \in {"cost", "cost_gf"} /\ ~Exact(r.cost) THEN 1 ELSE 0)
 
-Halt(why) == /\ stop' = why /\ l' = Len(Trc.calls) + 1
+Halt(why) == /\ stop' = why /\ l' = NCalls + 1
              /\ UNCHANGED <<tid, st, verdict, vstep, cverdict, cstep, nval, nbr, exp>>
 TStep ==
-  /\ l <= Len(Trc.calls)
-  /\ LET call == Trc.calls[l]
-         ob == Trc.obs[l]
+  /\ l <= NCalls
+  /\ LET call == CallAt(l)
+         ob == ObsAt(l)
      IN IF ~Applicable(C, call) THEN Halt("bad-input")
         ELSE IF ~Small(C, st) THEN Halt("large")
         ELSE \E r \in {Do(C, st, call)} :
           IF r.ok # "ok" THEN Halt(r.ok)
           ELSE IF call.k = "reset"
           THEN /\ st' = r.st /\ l' = l + 1 /\ nval' = nval + 1
-               /\ exp' = Append(exp, [x |-> r.st.x, cost |-> r.cost, acc |-> r.st.acc, sm |-> r.st.sm, t |-> r.st.t, shc |-> r.shc])
+               /\ exp' = Append(exp, ExpOf(r))
                /\ UNCHANGED <<tid, verdict, vstep, cverdict, cstep, nbr, stop>>
           ELSE \E cl \in {Clause(r, ob)} : \E cc \in {CostClause(r, ob, call)} :
                /\ st' = r.st
-               /\ exp' = Append(exp, [x |-> r.st.x, cost |-> r.cost, acc |-> r.st.acc, sm |-> r.st.sm, t |-> r.st.t, shc |-> r.shc])
+               /\ exp' = Append(exp, ExpOf(r))
                /\ IF cc # "ok" /\ cverdict = "ok" THEN cverdict' = cc /\ cstep' = l ELSE UNCHANGED <<cverdict, cstep>>
                /\ IF cl = "ok"
                   THEN /\ l' = l + 1 /\ nval' = nval + 1 /\ nbr' = nbr + Bridged(r, call)
                        /\ UNCHANGED <<verdict, vstep, stop>>
-                  ELSE /\ verdict' = cl /\ vstep' = l /\ l' = Len(Trc.calls) + 1 /\ stop' = "failed"
+                  ELSE /\ verdict' = cl /\ vstep' = l /\ l' = NCalls + 1 /\ stop' = "failed"
                        /\ UNCHANGED <<nval, nbr>>
                /\ UNCHANGED tid
-TDone == /\ l = Len(Trc.calls) + 1
+TDone == /\ l = NCalls + 1
          /\ PrintT(<<"V", tid, verdict, vstep, cverdict, cstep, nval, nbr, stop>>)
-         /\ (IF Trc.emit THEN PrintT(ToJson([tid |-> tid, exp |-> exp])) ELSE TRUE)
+         /\ (IF Trc.e THEN PrintT(ToJson([tid |-> tid, exp |-> exp])) ELSE TRUE)
          /\ l' = l + 1
          /\ UNCHANGED <<tid, st, verdict, vstep, cverdict, cstep, nval, nbr, stop, exp>>
 TNext == TStep \/ TDone
